@@ -107,7 +107,7 @@ def resume(c, name, via, k=2, warm=6, N=5):
         d = tempfile.mkdtemp(dir=os.environ.get('TMPDIR')); path = os.path.join(d, 'ckpt.pickle'); s.save_checkpoint(path)
     s.sample(N - k)
     ref = _chain(s)[warm + k:]
-    s2 = EXP[name](); s2.initialize()
+    s2 = EXP[name]()                    # freshly constructed: NOT initialised by the harness - loading must survive the sampler's own initialisation at first use
     if via == 'state': s2.set_state(saved)
     else:
         s2.load_checkpoint(path); os.remove(path); os.rmdir(d)
@@ -220,7 +220,7 @@ def sym_resume(c, name, T=2):
     accs = [s.step() for _ in range(T)]
     after = s.get_state()['state']
     _clear_queue(c)
-    s2 = _mk_sym(c, name, target=s.target); s2.initialize(); s2.set_state(saved)
+    s2 = _mk_sym(c, name, target=s.target); s2.set_state(saved)         # fresh, not initialised by the harness
     B = _attr_snap(s2, hist)
     _queue(c, name, T)
     log = trace(s2)
@@ -396,6 +396,15 @@ def state_dictionary(c):
     c.holds('loading_assigns_exactly_the_saved_objects', all(getattr(t, k) is st['state'][k] for k in A._STATE_KEYS))
     changed = {k for k in vars(t) if k not in before or vars(t)[k] is not before[k]}
     c.holds('loading_changes_nothing_but_the_declared_state', changed <= {'_current_point', 'current_point', 'alpha', '_beta'}, note=str(changed))
+    # a FRESH (never initialised) sampler: what is loaded must still be there after the initialisation every public entry point performs first
+    u = A(_T(), initial_point=('state', 0))
+    u.set_state(st)
+    u._ensure_initialized()
+    c.holds('state_loaded_into_a_fresh_sampler_survives_its_first_use', all(getattr(u, k) is st['state'][k] for k in A._STATE_KEYS), note=str({k: getattr(u, k, None) for k in A._STATE_KEYS}))
+    w = A(_T(), initial_point=('state', 0))
+    w.set_history(s.get_history())
+    w._ensure_initialized()
+    c.holds('history_loaded_into_a_fresh_sampler_survives_its_first_use', w._samples is s.get_history()['history']['_samples'] or list(w._samples) == list(s._samples), note=str(w._samples))
     c.holds('history_is_not_part_of_the_state', t._samples == [] and 'state' in st and '_samples' not in st['state'])
     c.expect_raise('state_of_another_sampler_type_refused', lambda: B(_T(), initial_point=('state', 0)).set_state(st), ValueError)
     bad = {'metadata': dict(st['metadata']), 'state': dict(st['state'], gamma=1)}
@@ -471,7 +480,7 @@ def native_closure(c, name, warm=6, k=2, steps=6):
         s.sample(k)
         saved = s.get_state()
         hist = set(s._HISTORY_KEYS)
-        s2 = EXP[name](); s2.target = s.target; s2.initialize(); s2.set_state(saved)
+        s2 = EXP[name](); s2.target = s.target; s2.set_state(saved)         # fresh, not initialised by the harness
         A = _attr_snap(s, hist); B = _attr_snap(s2, hist)
         log = trace(s2)
         try: s2.sample(steps)
